@@ -216,6 +216,7 @@ type scen struct {
 	dropHold bool           // hold the goroutines Reader.Close spawns until all crash actions have run
 	postAns  bool           // after the crash the sinks of torn-down paths try to answer what they hold
 	postReq  bool           // after the crash every requester issues one more request
+	errPath  bool           // every node of path 0 fails its action: the request travels on through the node's ERROR port (the catch loop, not the backward loop, passes the answers up)
 	postRace bool           // … at once, racing with the propagation of the teardown (not mirrored in the model); otherwise after the torn-down paths have released their requesters
 	id       int
 }
@@ -258,6 +259,9 @@ func (s *scen) describe() string {
 		fmt.Fprintf(&b, "bare writers with %v readers", s.readers)
 	} else {
 		fmt.Fprintf(&b, "port paths with %v nodes, %d processes", s.nNodes, s.nP)
+		if s.errPath {
+			b.WriteString(", the nodes of path 0 fail and route through their error ports")
+		}
 	}
 	var ks []string
 	for a := 0; a < s.paths(); a++ {
@@ -387,6 +391,15 @@ type workflow struct {
 	pendingCnt   map[int]*requester // line index of a pwrite whose count is known only at the end
 }
 
+// routed is the port a node of path a passes its requests on through: the out port, or – when the
+// nodes of the path fail their actions – the error port.
+func (wf *workflow) routed(a int, n *node.OneToOneNode) *port.OutPort {
+	if wf.sc.errPath && a == 0 {
+		return n.Out(node.PortError)
+	}
+	return n.Out(node.PortOut)
+}
+
 func (wf *workflow) emit(line, impl string) int {
 	wf.lines = append(wf.lines, line)
 	wf.impls = append(wf.impls, impl)
@@ -476,12 +489,16 @@ func build(sc *scen) (wf *workflow, err string) {
 		wf.outPortIdx[fmt.Sprintf("%d.0", a)] = nOut
 		nOut++
 		for j := 0; j < nn; j++ {
+			fails := sc.errPath && a == 0
 			n := node.NewOneToOneNode(func(_ *process.Process, in *packet.Packet) (*packet.Packet, *packet.Packet) {
+				if fails {
+					return nil, packet.New(in.Payload())
+				}
 				return packet.New(in.Payload()), nil
 			})
 			ns = append(ns, n)
 			prev.Link(n.In(node.PortIn))
-			prev = n.Out(node.PortOut)
+			prev = wf.routed(a, n)
 			wf.inPortIdx[fmt.Sprintf("%d.%d", a, j)] = nIn
 			wf.outPortIdx[fmt.Sprintf("%d.%d", a, j+1)] = nOut
 			wf.nodeIdx[fmt.Sprintf("%d.%d", a, j)] = nNode
@@ -576,7 +593,7 @@ func build(sc *scen) (wf *workflow, err string) {
 			wf.readers[[2]int{s.wid, 0}] = s.reader
 			for j, n := range wf.nodes[a] {
 				wf.readers[[2]int{sc.wid(a, p, j), 0}] = n.In(node.PortIn).Open(wf.procs[p])
-				wf.writers[sc.wid(a, p, j+1)] = n.Out(node.PortOut).Open(wf.procs[p])
+				wf.writers[sc.wid(a, p, j+1)] = wf.routed(a, n).Open(wf.procs[p])
 			}
 		}
 	}
@@ -934,7 +951,7 @@ func (wf *workflow) outPortByIdx(i int) *port.OutPort {
 			if j == 0 {
 				return wf.src[a]
 			}
-			return wf.nodes[a][j-1].Out(node.PortOut)
+			return wf.routed(a, wf.nodes[a][j-1])
 		}
 	}
 	return nil
@@ -1559,7 +1576,7 @@ func (wf *workflow) cleanup() {
 // ---------------------------------------------------------------- generation
 
 func genScen(rng *lib.RNG, id int, maxEvents int) *scen {
-	sc := &scen{id: id, kinds: map[qid]string{}, dropHold: rng.Chance(1, 2), postAns: rng.Chance(1, 2), postReq: rng.Chance(2, 3), postRace: rng.Chance(1, 3)}
+	sc := &scen{id: id, kinds: map[qid]string{}, dropHold: rng.Chance(1, 2), postAns: rng.Chance(1, 2), postReq: rng.Chance(2, 3), postRace: rng.Chance(1, 3), errPath: rng.Chance(1, 3)}
 	if rng.Chance(1, 4) {
 		sc.bare = true
 		sc.nP = 1
@@ -1983,7 +2000,7 @@ func Run(c *lib.Ctx) {
 		runOne(cc.sc, cc.prefix, cc.acts)
 	}
 	// 2. enumeration
-	for i := 0; i < nScen && unknownFails < 20; i++ {
+	for i := 0; i < nScen && unknownFails < 6; i++ {
 		sc := genScen(rng.Fork(), i+100, maxEv)
 		primary, extra := actions(sc)
 		all := append(append([]action(nil), primary...), extra...)
@@ -2080,7 +2097,7 @@ func corpusText(sc *scen, prefix int, acts []action) string {
 	for _, f := range []struct {
 		on   bool
 		name string
-	}{{sc.dropHold, "dropHold"}, {sc.postAns, "postAns"}, {sc.postReq, "postReq"}, {sc.postRace, "postRace"}} {
+	}{{sc.dropHold, "dropHold"}, {sc.postAns, "postAns"}, {sc.postReq, "postReq"}, {sc.postRace, "postRace"}, {sc.errPath, "errPath"}} {
 		if f.on {
 			b.WriteString(" " + f.name)
 		}
@@ -2137,6 +2154,8 @@ func parseCorpus(path string, id int) (cc corpusCase, err string) {
 					sc.postReq = true
 				case "postRace":
 					sc.postRace = true
+				case "errPath":
+					sc.errPath = true
 				default:
 					return cc, "unknown flag " + t
 				}
